@@ -142,6 +142,8 @@ type FuncVC struct {
 	curPos      token.Pos
 	curBlock    *ssa.BasicBlock
 	bounded     bool
+	skolems     map[*ast.FuncLit]skolemInfo
+	decomps     map[string][]string
 	boundActive []string
 	noFacts     int
 	boundSorts  []string   // sorts of boundActive entries ("" for non-quantifier bindings)
@@ -176,6 +178,11 @@ type resolvedMod struct {
 	off   string // elems: window start
 	ln    string // elems: window length
 	text  string
+}
+
+type skolemInfo struct {
+	fn    string
+	arity int
 }
 
 func (f *FuncVC) name() string {
@@ -339,6 +346,13 @@ func pathString(p []PathElem) (string, int) {
 func (f *FuncVC) load(st *State, p *Val, ty types.Type) *Val {
 	loc := f.locOf(p)
 	if loc == nil {
+		if at, ok := ty.Underlying().(*types.Array); ok && p.K == KPtr && p.P == nil && len(p.Fs) == 2 && p.Fs[1].T == "0" {
+			// whole-array load from an array object on the element heap
+			v := build(ty, func(l Leaf) string {
+				return f.elemRow(st, elemHeapPrefix(at.Elem())+l.Path, l.Sort, p.Fs[0].T)
+			})
+			return v
+		}
 		f.unsup("load through unsupported pointer")
 		return f.freshVal(ty, "unsup")
 	}
